@@ -31,11 +31,20 @@ fn table(id: &str) -> Option<(RunFn, ReplayFn, Vec<&'static str>)> {
     Some(match id {
         "C01" => (mon::c01::run as RunFn, mon::c01::replay as ReplayFn, vec!["supply is summed from the decoded coin and pool trees; every tree entry must be explained by an identifier the harness created", "RefSTF's peg/subsidy amounts bound what may be issued at sealing"]),
         "C02" => (mon::c02::run, mon::c02::replay, vec!["RefSTF is the model of what acceptance requires; only the necessary direction is enforced", "batches spending non-first outputs of staking transactions are excluded"]),
+        "C03" => (mon::c03::run, mon::c03::replay, vec!["thread interleavings are sampled through pool sizes 1 and 4, not enumerated; per-process hash seeds are sampled through rebuilt HashSets"]),
+        "C04" => (mon::c04::run, mon::c04::replay, vec!["heights >= 1 only (at height 0 the previous header is an artefact)", "at most 6 inputs per spend"]),
+        "C05" => (mon::c05::run, mon::c05::replay, vec!["covenant weights come from RefVM's independent weight function; stdcode length is trusted", "the fee pool before the reward is read from the same block sealed without an action"]),
+        "C06" => (mon::c06::run, mon::c06::replay, vec!["honest blocks are those the implementation itself produced through apply_tx_batch + seal"]),
+        "C07" => (mon::c07::run, mon::c07::replay, vec!["novasmt's proof verifier and blake3 are trusted; roots are re-derived in a fresh in-memory store"]),
+        "C08" => (mon::c08::run, mon::c08::replay, vec!["the content-addressed store is the in-memory one shared by both lineages; a cold start from disk is outside the crate"]),
         "C09" => (mon::c09::run, mon::c09::replay, vec!["genesis supply per denomination is kept below 2^126", "engine and dependencies are built with overflow-checks and debug-assertions on"]),
+        "C13" => (mon::c13::run, mon::c13::replay, vec!["epoch boundaries are reached by fabricating states at boundary heights through the public from_block (the property's quantifier allows this)", "mainnet/testnet below 900 000 (legacy staking rules) are excluded; spends of non-first outputs of staking transactions are unspecified"]),
         "C14" => (mon::c14::run, mon::c14::replay, vec!["stake sets are installed through the genesis configuration (epoch 0); equality at exactly 2/3 is treated as unspecified"]),
         "C17" => (mon::c17::run, mon::c17::replay, vec!["multipliers are installed through the genesis configuration; mainnet/testnet are exercised at height 0 (TIP-901 inactive) only"]),
         "C15" => (mon::c15::run, mon::c15::replay, vec!["the exact settlement formulas are those of DESIGN Appendix A (constants from the code); price_accum is never compared", "for non-canonical pool-key spellings both 'ignored' and 'settled as the canonical pool' are accepted"]),
         "C16" => (mon::c16::run, mon::c16::replay, vec!["pool-tree keys are decoded through the harness's registry of pool names"]),
+        "C18" => (mon::c18::run, mon::c18::replay, vec!["melpow's prover and verifier are trusted as the definition of a valid proof; the two hash functions are re-implemented in the harness", "difficulties above 17 are not generated (proof generation time)"]),
+        "C19" => (mon::c19::run, mon::c19::replay, vec!["the grandfathered mainnet faucet cannot be generated (only its hash is known)"]),
         "C20" => (mon::c20::run, mon::c20::replay, vec!["coin-tree keys are decoded through the harness's registry of identifiers"]),
         "C10" => (mon::c10::run as RunFn, mon::c10::replay as ReplayFn, vec!["RefVM's reading of the opcode documentation is the specification; where the documentation is silent RefVM follows the pinned implementation (regression oracle)", "programs with reference weight above 50 000 are not executed"]),
         "C11" => (mon::c11::run, mon::c11::replay, vec!["memory is measured as heap bytes allocated by the calling thread", "time is measured as instructions executed and weigh steps, never wall-clock"]),
